@@ -12,6 +12,7 @@ import (
 	"fmt"
 	"os"
 	"os/exec"
+	"path/filepath"
 	"runtime"
 	"sort"
 	"strings"
@@ -109,6 +110,17 @@ func quiet() (bool, string) {
 }
 
 var watchdogHit string
+
+// progress: the child records the history it is executing (ops done + the op about to run) so that the parent can
+// attach it to the oracle hit if the process dies in the middle.
+var progressPath string
+
+func progress(kind string, done []string, next string) {
+	if progressPath == "" {
+		return
+	}
+	_ = os.WriteFile(progressPath, []byte(kind+" history; completed ops: ["+strings.Join(done, "; ")+"]; crashed during or right after: "+next), 0o644)
+}
 
 func waitQuiet(t *testing.T) {
 	deadline := time.Now().Add(30 * time.Second)
@@ -319,6 +331,7 @@ func runBusHistory(t *testing.T, r *Rng, side *Sidecar, nops int) (string, busHi
 			opS = "OTopics"
 			side.Count("bus_op:Topics")
 		}
+		progress("memEventBus", hist.Ops, opS+" (executed; waiting for the publisher goroutines)")
 		waitQuiet(t)
 		// observation
 		var names []int
@@ -519,6 +532,7 @@ func runFsHistory(t *testing.T, r *Rng, side *Sidecar, nops int) (string, fsHist
 			opS = fmt.Sprintf("FListen %d %s", i, CqBool(on))
 			side.Count("fs_op:Listen")
 		}
+		progress("EventSystem", hist.Ops, opS+" (executed; waiting for the goroutines)")
 		waitQuiet(t)
 		obs := make([]string, len(subs))
 		for i, s := range subs {
@@ -631,6 +645,7 @@ func TestDriverPubsub(t *testing.T) {
 		require.NoError(t, err)
 		cmd := exec.Command(exe, "-test.run", "^TestDriverPubsub$", "-test.count", "1", "-test.timeout", "3000s")
 		cmd.Env = append(os.Environ(), "VERIF_PUBSUB_CHILD=histories")
+		_ = os.Remove(filepath.Join(dir, "current_history.txt"))
 		var buf bytes.Buffer
 		cmd.Stdout, cmd.Stderr = &buf, &buf
 		runErr := cmd.Run()
@@ -658,11 +673,13 @@ func TestDriverPubsub(t *testing.T) {
 		if len(excerpt) > 2500 {
 			excerpt = excerpt[:2500]
 		}
-		side.Hit(sig, "the process driving sequential histories on the event bus / filter system died", map[string]interface{}{"output": excerpt})
+		hist, _ := os.ReadFile(filepath.Join(dir, "current_history.txt"))
+		side.Hit(sig, "the process driving sequential histories on the event bus / filter system died", map[string]interface{}{"history": string(hist), "output": excerpt})
 		side.Write(t, dir) // no cases file: nothing was observed to the end
 		return
 	}
 	n := EnvInt("VERIF_N", 120)
+	progressPath = filepath.Join(dir, "current_history.txt")
 	rng := NewRng(seed)
 	side := NewSidecar("pubsub", seed,
 		"case = one sequential history (10..40 ops, quiescence between ops decided from goroutine states) on the real memEventBus "+
@@ -749,6 +766,7 @@ func TestDriverPubsub(t *testing.T) {
 	if os.Getenv("VERIF_TIER") == "thorough" {
 		stress(t, side)
 	}
+	_ = os.Remove(progressPath)
 	cases.Write(t, 40)
 	side.Write(t, dir)
 }
